@@ -249,6 +249,20 @@ func loadScenario[C any, O any](path string) *Scenario[C, O] {
 func driveReplay[C any, O any](t *testing.T, eng Engine[C, O], a *Args) {
 	sc := loadScenario[C, O](a.File)
 	exp := sc.Violation
+	if n := a.Runs; n > 1 { // flakiness probe: how often does this scenario fail?
+		hits := map[string]int{}
+		for i := 0; i < n; i++ {
+			r := SafeRun(t, eng, nil, sc)
+			k := "ok"
+			if r.Violation != nil {
+				k = fmt.Sprintf("%s|%s|step %d|%s", r.Violation.Class, r.Violation.Key, r.Violation.Step, r.Violation.Detail)
+			}
+			hits[k]++
+		}
+		for k, v := range hits {
+			fmt.Fprintf(os.Stderr, "REPEAT %d x %s\n", v, k)
+		}
+	}
 	res := SafeRun(t, eng, nil, sc)
 	ro := &ReplayOut{Violation: res.Violation, Expected: exp, Ops: len(sc.Ops)}
 	if res.Violation != nil {
